@@ -198,6 +198,20 @@ def order_token(o) -> str:
     return ",".join(f"{_hex(a)}:{d}" for a, d in o["keys"])
 
 
+def act_token(act) -> str:
+    """C14 callback action: None | "x" (raises) | ["u", app, k|None] (unsubscribes the k-th subscribe call's id) |
+    ["d", app] (deregisters the consumer)"""
+    if act is None:
+        return "-"
+    if act == "x":
+        return "x"
+    if act[0] == "u":
+        return f"u{int(act[1])}:{opt(act[2])}"
+    if act[0] == "d":
+        return f"d{int(act[1])}"
+    raise ValueError(f"unknown callback action {act!r}")
+
+
 def csv(xs) -> str:
     return ",".join(str(int(x)) for x in xs) if xs else "-"
 
@@ -228,8 +242,11 @@ def op_line(op) -> str:
     if n == "adv":
         return f"adv {op[1]}"
     if n == "sub":
-        _, cb, app, types, prio, flt, notify, mult, order = op
-        return f"sub {cb} {app} {csv(types)} {opt(prio)} {filter_token(flt)} {opt(notify)} {opt(mult)} {order_token(order)}"
+        _, cb, app, types, prio, flt, notify, mult, order = op[:9]
+        line = f"sub {cb} {app} {csv(types)} {opt(prio)} {filter_token(flt)} {opt(notify)} {opt(mult)} {order_token(order)}"
+        if len(op) > 9 and op[9] is not None:           # C14: what the callback does when invoked (see act_token)
+            line += " " + act_token(op[9])
+        return line
     if n == "unsub":
         return f"unsub {op[1]} {opt(op[2])}"
     if n == "attend":
@@ -354,14 +371,38 @@ class RealLdm:
     def now_its(self):
         return now_its(self.clock.ms)
 
-    def _callback(self, cb):
-        def fn(resp, cb=cb):
+    def _callback(self, cb, act=None):
+        def fn(resp, cb=cb, act=act):
             self.calls.append((cb, int(resp.application_id), tuple(resp.data_objects)))
+            # C14: a callback may raise or re-enter IF.LDM.4 (after having recorded what it received)
+            if act == "x":
+                raise RuntimeError("callback failure injected by the harness")
+            if act is not None and act[0] == "u":
+                k = act[2]
+                sid = self.sub_ids[k] if (k is not None and k < len(self.sub_ids)) else 987654321987
+                self.i4.unsubscribe_data_consumer(K.UnsubscribeDataConsumerReq(act[1], sid))
+            elif act is not None and act[0] == "d":
+                self.i4.deregister_data_consumer(K.DeregisterDataConsumerReq(act[1]))
         return fn
 
     def stored(self):
         """direct view of the database content (records in store order), for oracles"""
         return [dict(d) for d in self.ldm.ldm_maintenance.data_containers.all()]
+
+    def state_line(self, full=False) -> str:
+        """C12: the `state` / `dump` line of the Lean driver for the real facility: identifier counter of the
+        Dictionary back-end, both registries (sorted), ids of the stored rows in store order (+ the rows for dump).
+        A field that cannot be read (back-end without `_next_id` / `database` dict) is printed as `?` (not compared)."""
+        svc = self.ldm.ldm_service
+        db = self.ldm.ldm_maintenance.data_containers
+        nxt = getattr(db, "_next_id", None)
+        store = getattr(db, "database", None)
+        ids = list(store.keys()) if isinstance(store, dict) else None
+        head = (f"s n={'?' if not isinstance(nxt, int) else nxt} p={csv(sorted(svc.data_provider_its_aid))} "
+                f"c={csv(sorted(svc.data_consumer_its_aid))} i={'?' if ids is None else csv(ids)}")
+        if full and ids is not None:
+            return " ".join([head] + [f"{i}:" + ser_record(store[i]) for i in ids])
+        return head
 
     # ---- one operation -> canonical line
     def apply(self, op) -> str:
@@ -424,12 +465,12 @@ class RealLdm:
             self.advance(op[1])
             return "-"
         if n == "sub":
-            _, cb, app, types, prio, flt, notify, mult, order = op
+            _, cb, app, types, prio, flt, notify, mult, order = op[:9]
             req = K.SubscribeDataobjectsReq(
                 application_id=app, data_object_type=tuple(types), priority=prio, filter=real_filter(flt),
                 notify_time=None if notify is None else K.TimestampIts(notify), multiplicity=mult,
                 order=real_order(order, bad_direction=True))
-            r = self.i4.subscribe_data_consumer(req, self._callback(cb))
+            r = self.i4.subscribe_data_consumer(req, self._callback(cb, op[9] if len(op) > 9 else None))
             if int(r.result) != 0:
                 return f"c {int(r.result)}"
             sid = r.subscription_id
